@@ -285,6 +285,16 @@ class Prop(SeqProp):
             exp = sorted(([i], sc[i]) for i in range(n) if sc[i] == min(sc))
             if sorted(mins) != exp:
                 return f"{n} elements: min-combination search over the whole range gives {mins[:5]}, expected the least singletons {exp[:5]}"
+            # two cheap elements far apart among expensive ones: the only hit of [2, 3) is that pair, its members in index order
+            sc2 = [50] * n
+            a_, b_ = 3, n - 56
+            sc2[a_] = sc2[b_] = 1
+            try:
+                pair = core.call_with_alarm(lambda: g.min_combinations_in_interval_iter_sorted(list(range(n)), sc2, 2, 3), 20.0)
+            except core.Timeout:
+                return f"{n} elements, two of score 1: the search in [2, 3) did not return within 20 s"
+            if pair != [([a_, b_], 2)]:
+                return f"{n} elements, scores 50 except 1 at indices {a_} and {b_}: the search in [2, 3) gives {pair[:3]}, expected [([{a_}, {b_}], 2)]"
             # intervals that hold nothing because they end before the least sum (empty, inverted): the answer is [] at once
             for lo, hi in ((10 ** 6, 0), (min(sc), min(sc)), (3 * n * 50, min(sc)), (0, min(sc))):
                 try:
